@@ -7,6 +7,8 @@
 (* further task properties), m / jps / tpj = results of the real Allocator  *)
 (* on the filtered schedule objects, walk = did the real                    *)
 (* Driver.update_progress_message find an entry for every step.             *)
+(* Verdict lines are printed one per failing clause: TLC wraps values wider *)
+(* than 80 columns over several lines, which the harness cannot parse.      *)
 (* L1: the clauses of property C11 on the recorded values.                  *)
 (* L2: out equals the transcription of the code (in its repaired or in its  *)
 (*     pre-fix variant: which of the two the tree implements is decided by  *)
@@ -26,7 +28,7 @@ Check(it) ==
               \cup {"Runnable:" \o c : c \in AllocFailing(it.out, it.m, it.jps, tpj)}
               \cup (IF it.walk = "fail" THEN {"Runnable:DriverWalksEveryStep"} ELSE {})
         l2 == ~it.l2 \/ it.out = FilterCodeV(it.s, it.F, it.mode, TRUE) \/ it.out = FilterCodeV(it.s, it.F, it.mode, FALSE)
-    IN /\ IF l1 = {} THEN TRUE ELSE PrintT(<<"V", it.id, 1, "L1", l1>>)
+    IN /\ \A c \in l1 : PrintT(<<"V", it.id, 1, "L1", {c}>>)
        /\ IF l1 # {} \/ l2 THEN TRUE ELSE PrintT(<<"V", it.id, 1, "L2", {}>>)
 
 TNext == /\ i <= Len(Items)
